@@ -316,21 +316,24 @@ def printMore : List Ast → List Tok
   | a :: as => .comma :: (printMin a 0 ++ printMore as)
 end
 
-/-- well-formedness of a tree: an integer literal is never the receiver of a postfix
-operation (`1(x)` is rejected by lowering, `1.0` is one float token) -/
 def isLit : Ast → Bool
   | .lit _ => true
   | _ => false
 
 mutual
+/-- well-formedness of a tree: an integer literal — and, through the check's placeholders, every
+other primary expression that lowering refuses to apply pending operations to (literals of every kind,
+tuple / array / struct literals, `if`, `match`, `while`) — is never *called* directly: `1(x)`,
+`(a, b)(x)`, `if c { f } else { g }(x)` are lowering diagnostics by design ("Cannot apply arguments to
+integer literal"). It may be the receiver of `.field` / `.0` (`7 . f`, `(a, b) . 0 (x)`). -/
 def wf : Ast → Bool
   | .var _ => true
   | .lit _ => true
   | .un _ e => wf e
   | .bin _ l r => wf l && wf r
   | .call f args => !isLit f && wf f && wfList args
-  | .field e _ => !isLit e && wf e
-  | .proj e _ => !isLit e && wf e
+  | .field e _ => wf e
+  | .proj e _ => wf e
 def wfList : List Ast → Bool
   | [] => true
   | a :: as => wf a && wfList as
